@@ -1,7 +1,7 @@
 (* Entry points of the pipe-level correspondence checks. *)
 From Coq Require Import String NArith List Bool.
 From GF Require Import Base.Res Base.Bytes Base.Layout Base.Gen Model.Msg Model.NF Model.Packet Model.ProdNF
-     Model.Pipe Spec.GenPipe Spec.RefStore Spec.Ghost.
+     Model.Pipe Spec.GenPipe Spec.RefStore Spec.Ghost Spec.Present.
 Import ListNotations.
 Local Open Scope string_scope.
 Open Scope N_scope.
@@ -34,5 +34,26 @@ Definition c02_run (inp : list tok) : list tok :=
   | TS _ :: TS k :: TS _ :: r =>
       gh_run (if String.eqb k "sflow" then PKSFlow else if String.eqb k "flow" then PKFlow else PKNetFlow)
              empty_prodcfg init_pstate (toks_hist r)
+  | _ => [TS "badinput"]
+  end.
+
+(* C07: the number of complete flow records physically present in every datagram of a history (Spec/Present.v for
+   v9 / IPFIX, in the template state the datagram meets; (len - 24) / 48 for NetFlow v5) *)
+Fixpoint present_run (cfg : prodcfg) (st : pstate) (h : list (exporter * N * bytes)) : list tok :=
+  match h with
+  | [] => []
+  | (e, tr, d) :: r =>
+      let n := match rd 2 d with
+               | Ok (ver, d0) =>
+                   if ver =? 5 then (lenN d - 24) / 48
+                   else if (ver =? 9) || (ver =? 10)
+                        then N.of_nat (present_nf_body (tstores_get (psT st) (exp_id e)) ver d0) else 0
+               | _ => 0
+               end in
+      TN n :: TS "|" :: present_run cfg (step_state st (nf_step cfg st e tr d)) r
+  end.
+Definition c07p_run (inp : list tok) : list tok :=
+  match inp with
+  | TS _ :: TS _ :: TS _ :: r => present_run empty_prodcfg init_pstate (toks_hist r)
   | _ => [TS "badinput"]
   end.
